@@ -13,7 +13,7 @@ PROP = "C16"
 LEAN_MODULE = "BlobfinderModel.Properties.C16"
 GEN_FILES = ["Masks", "Patterns"]
 FRAGMENTS = ["bin_val", "bin_layout", "bin_patch", "rgbs_val", "bs_combine", "crop_size_of", "ctor_circular",
-             "ctor_bs", "mask_center", "user_template", "rgbs_geometry"]
+             "ctor_bs", "mask_center", "user_template", "user_template_io", "rgbs_geometry"]
 DRIVER = "drvmasks"
 RULE = ("correspondence: exhaustive UserTemplate source 1..12 x target 1..12 on both axes (index map, widths) vs the "
         "model; mask values of Circular / RadialGradient / RGBS template pixel by pixel at the implementation's own "
